@@ -300,7 +300,7 @@ PointersBackwardAndIntended ==
     /\ BU16(buf, e.at) = 49152 + e.to
     /\ LET r == RdName(buf, e.to) IN r.ok /\ NameEq(r.name, e.name)
 \* (d) the stream length prefix is the message length
-ShimMatches == shim = buf.len /\ (cfg.tgt = "stream" => buf.len <= 65535)
+ShimMatches == shim = buf.len /\ (cfg.tgt \in {"stream", "sarray"} => buf.len <= 65535)
 \* the table only holds positions that exist and that a pointer can express
 TabOffsets ==
   CASE cfg.comp = "static" -> {tab[i] : i \in 1..Len(tab)}
